@@ -32,6 +32,7 @@ def tunnel_family(pid, work, tier, seed, scripts, design, guards=None, what="", 
     others = sorted({v["guard"] for v in res["viol"] if not owns(v)})
     confirmed = []
     sigof = lambda v: "%s/%s.%s/%s/%s" % (v["guard"], v["k"], v["cls"], v["phase"], v["transport"])
+    histories = {}
     if mine:
         per = {}
         for v in mine:
@@ -43,13 +44,41 @@ def tunnel_family(pid, work, tier, seed, scripts, design, guards=None, what="", 
         res2 = ft.run_scripts(work, again, seed, tier, tag=pid.lower() + "-confirm", jobs=jobs)
         seen2 = {sigof(v) for v in res2["viol"] if owns(v)}
         confirmed = [v for v in mine if sigof(v) in seen2]
+        # a reaction may depend on what earlier tunnels did on the same gateway instance (state shared
+        # between tunnels): signatures that do not show when the script runs alone are re-executed
+        # together with the scripts that ran before it on its instance, in the same order
+        left = sorted(set(per) - seen2)
+        if left:
+            byid0 = {s["id"]: s for s in scripts}
+            grouped, want = [], {}
+            for n, sig in enumerate(left[:12]):
+                sid = per[sig][0]
+                hist = ft.history_of(res["lines"], sid)
+                g = "H%d" % n
+                for hs in hist:
+                    if hs in byid0:
+                        grouped.append(dict(byid0[hs], id="%s@%s" % (hs, g), grp=g))
+                want[g] = sig
+                histories[sig] = [byid0[hs] for hs in hist if hs in byid0]
+            res3 = ft.run_scripts(work, grouped, seed, tier, tag=pid.lower() + "-confirm-hist", jobs=jobs)
+            seen3 = set()
+            for v in res3["viol"]:
+                if owns(v) and "@" in str(v["script"]):
+                    g = v["script"].rsplit("@", 1)[1]
+                    if want.get(g) == sigof(v):
+                        seen3.add(sigof(v))
+            for v in mine:
+                if sigof(v) in seen3:
+                    v["with_history"] = True
+                    confirmed.append(v)
         if not confirmed:
-            raise HarnessError("violations of %s did not reproduce on re-execution: %s" % (pid, sorted(per)[:5]))
+            raise HarnessError("violations of %s did not reproduce on re-execution (alone and with the history of their gateway instance): %s" % (pid, sorted(per)[:5]))
     byid = {s["id"]: s for s in scripts}
     for v in confirmed:
         sig = sigof(v)
         out.violations.append({"signature": sig, "what": "%s violated by the gateway's reaction to a %s packet in phase %s over %s" % (v["guard"], v["k"], v["phase"], v["transport"]),
                                "guard": v["guard"], "script": byid.get(v["script"]), "step": v["step"], "event": v["event"],
+                               "history": histories.get(sig) if v.get("with_history") else None,
                                "replay": "./bin/check %s --replay <this file>" % pid})
     cover = res["result"]["cover"]
     ntraces = len(scripts)
@@ -101,6 +130,9 @@ def replay_tunnel(pid, work, tier, seed, path):
     if not s:
         raise HarnessError("replay file has no script")
     design = design_check("MC_Proto", "MC_Proto.cfg", work, workers=4, timeout=300)
+    if v.get("history"):
+        # the scripts that ran before it on the same gateway instance, in order, on one instance
+        return tunnel_family(pid, work, tier, seed, [dict(h, grp="R") for h in v["history"]], design)
     return tunnel_family(pid, work, tier, seed, [s], design)
 
 
